@@ -394,7 +394,7 @@ def check_matrix_solve(A, op, rhs, kw, lhs0, outcome, faulted, cplx):
     if outcome[0] == 'raise':
         if outcome[3]:
             return None
-        return ('E-unexpected-exception', f'{outcome[1]}: {outcome[2]} escaped from Matrix.solve (only matrix/solver errors may)')
+        return ('E-unexpected-exception:' + outcome[1], f'{outcome[1]}: {outcome[2]} escaped from Matrix.solve (only matrix/solver errors may)')
     x = numpy.asarray(outcome[1])
     nrhs = op['nrhs'] if rhs is not None else 0
     shape = (n,) + ((nrhs,) if nrhs else ())
@@ -562,7 +562,7 @@ def run_system(case, B):
                     if isinstance(e, ValueError) and ('problem is not symmetric' in str(e) or 'value is not defined' in str(e) or 'problem is not linear' in str(e)):
                         outkind = 'rejected:' + str(e)[:30]   # documented rejection of a method that does not apply
                     else:
-                        bad = ('E-unexpected-exception', f'{type(e).__name__}: {str(e)[:200]} escaped (only solver/matrix errors may); ' + traceback.format_exc()[-600:])
+                        bad = ('E-unexpected-exception:' + type(e).__name__, f'{type(e).__name__}: {str(e)[:200]} escaped (only solver/matrix errors may); ' + traceback.format_exc()[-600:])
             log.append((op['op'], str(op.get('method')), outkind, PLAN.reached - reached0))
             if bad:
                 return bad[0], f'op {oi} ({json.dumps({k: v for k, v in op.items() if k not in ("cmask", "vseed")})}): {bad[1]}', log
@@ -858,7 +858,7 @@ def run_project(case, B):
                 outcome = 'raise:' + type(e).__name__
                 log.append(('project', op['where'], outcome, PLAN.reached - reached0))
                 if not _is_ok_exc(e):
-                    return 'E-unexpected-exception', f'op {oi}: Topology.project raised {type(e).__name__}: {str(e)[:200]}', log
+                    return 'E-unexpected-exception:' + type(e).__name__, f'op {oi}: Topology.project raised {type(e).__name__}: {str(e)[:200]}', log
                 continue
             log.append(('project', op['where'], outcome, PLAN.reached - reached0))
             u = numpy.asarray(cons, dtype=float)
